@@ -13,7 +13,8 @@ def run(ctx):
                 "exhaustion or absurd allocations are observed as process aborts; (c) every charstring token sequence up to "
                 "length 3/4 over an adversarial alphabet (T1Charstring is total), wrapped by the independent writer with "
                 "hostile lenIV values; (g) every PFB stream of MC_PFB (empty segments, all 65536 header values, every buffer-size "
-                "sequence); (f) one byte replaced at every offset of every corpus file. A violation is a panic, a process "
+                "sequence); (f) one byte replaced at every offset of every corpus file, and every corpus file cut off at every offset; AFM files "
+                "whose announcing lines carry counts of about 2^e (no allocation by announcement). A violation is a panic, a process "
                 "abort or a hang; any returned result or error value is fine.")
     ctx.assumptions = ["MaxOps is set as the readers set it (1e6); cumulative memory growth over many operations is out of scope"]
     # (a)
